@@ -1,5 +1,5 @@
 (* C14 -- line-by-line model of /repo/src/place_global/transportation_1d.cpp (with the F11 repair:
-   Transportation1dSorter::idleSink).  Values are Z (long long, ideal), indices are nat (the C++
+   Transportation1dSorter::idleSink; line numbers `cpp:` refer to the repaired file, commit bae577b on agent/C14).  Values are Z (long long, ideal), indices are nat (the C++
    uses int/size_t; every index is >= 0 by construction).  No proofs in this file.
 
    Reading of out-of-range indices: the sweep (`run`, `computeSolution`) reads through `zn`
@@ -41,7 +41,7 @@ Record prob := { pb_u : list Z; pb_v : list Z; pb_s : list Z; pb_d : list Z }.
 Definition nb_sources (pb : prob) : nat := length (pb_u pb).
 Definition nb_sinks (pb : prob) : nat := length (pb_v pb).
 
-(* Transportation1d::check() (cpp:408-435); the two position-size tests are tautologies in the C++ *)
+(* Transportation1d::check() (cpp:426-452); the two position-size tests are tautologies in the C++ *)
 Definition check (pb : prob) : option err :=
   if negb (Nat.eqb (length (pb_s pb)) (nb_sources pb)) then Some EInconsistentSupplies
   else if negb (Nat.eqb (length (pb_d pb)) (nb_sinks pb)) then Some EInconsistentDemands
@@ -50,7 +50,7 @@ Definition check (pb : prob) : option err :=
   else if total (pb_d pb) <? total (pb_s pb) then Some ESupplyGtDemand
   else None.
 
-(* Transportation1d::balanceDemand() (cpp:114-127).  `missing / nbSinks()` with no sink is a division
+(* Transportation1d::balanceDemand() (cpp:132-145).  `missing / nbSinks()` with no sink is a division
    by zero in the C++ (SIGFPE): EDivZero.  totalSupply()/totalDemand() sum over nbSources()/nbSinks()
    = the position vectors' sizes; the model assumes the sizes agree (the harness always builds them so). *)
 Fixpoint add_first (k : nat) (l : list Z) : list Z :=
@@ -80,7 +80,7 @@ Fixpoint ins_pair (x : Z * nat) (l : list (Z * nat)) : list (Z * nat) :=
   end.
 Definition sort_pairs (l : list (Z * nat)) : list (Z * nat) := fold_right ins_pair [] l.
 
-(* `for i: if (s[i] > 0) srcSort.emplace_back(u[i], i)` (cpp:17-21, 25-29) *)
+(* `for i: if (s[i] > 0) srcSort.emplace_back(u[i], i)` (cpp:18-22, 26-30) *)
 Fixpoint pos_pairs (pos amt : list Z) (i : nat) : list (Z * nat) :=
   match pos, amt with
   | p :: pr, a :: ar => (if 0 <? a then [(p, i)] else []) ++ pos_pairs pr ar (S i)
@@ -118,7 +118,7 @@ Definition mk_sorter (pb : prob) : sorter :=
 (* ------------------------------------------------------------------ Transportation1dSolver *)
 Record sprob := { su : list Z; sv : list Z; ss : list Z; sd : list Z; sS : list Z; sD : list Z }.
 
-(* Transportation1dSorter::convert (cpp:60-78) + setupData (cpp:153-164) *)
+(* Transportation1dSorter::convert (cpp:60-77) + setupData (cpp:171-182) *)
 Definition convert (so : sorter) (pb : prob) : sprob :=
   let ss' := map (zn (pb_s pb)) (srcOrder so) in
   let sd' := map (zn (pb_d pb)) (snkOrder so) in
@@ -147,20 +147,20 @@ Fixpoint ev_insert (x : event) (l : list event) : list event :=
 Record st := { ev : list event; lp : Z; lo : nat; os : nat; pp : list Z }.
 (* lp = lastPosition, lo = lastOccupiedSink, os = optimalSink, pp = p *)
 
-(* updateOptimalSink (cpp:175-181); the loop stops at the latest when j+1 = nbSinks: fuel nbSinks *)
+(* updateOptimalSink (cpp:193-199); the loop stops at the latest when j+1 = nbSinks: fuel nbSinks *)
 Fixpoint upd_opt (P : sprob) (i : nat) (fuel : nat) (j : nat) : nat :=
   match fuel with
   | O => j
   | S f => if Nat.ltb (j + 1) (n_snk P) && (cost P i (j + 1) <=? cost P i j) then upd_opt P i f (j + 1) else j
   end.
 
-(* std::upper_bound / std::lower_bound on the sorted v (cpp:252,254): first index with v > x / v >= x *)
+(* std::upper_bound / std::lower_bound on the sorted v (cpp:270,272): first index with v > x / v >= x *)
 Fixpoint first_idx (f : Z -> bool) (l : list Z) : nat :=
   match l with [] => O | y :: r => if f y then O else S (first_idx f r) end.
 Definition upper_bound (l : list Z) (x : Z) : nat := first_idx (fun y => x <? y) l.
 Definition lower_bound (l : list Z) (x : Z) : nat := first_idx (fun y => x <=? y) l.
 
-(* pushNewSourceEvents (cpp:248-263) *)
+(* pushNewSourceEvents (cpp:266-281) *)
 Definition push_new_source_events (P : sprob) (i : nat) (s : st) : st :=
   match i with
   | O => s
@@ -174,7 +174,7 @@ Definition push_new_source_events (P : sprob) (i : nat) (s : st) : st :=
     {| ev := evs; lp := lp s; lo := lo s; os := os s; pp := pp s |}
   end.
 
-(* pushNewSinkEvents (cpp:265-277) *)
+(* pushNewSinkEvents (cpp:283-295) *)
 Definition push_new_sink_events (P : sprob) (i j : nat) (s : st) : st :=
   if Nat.leb j (lo s) then s
   else
@@ -184,20 +184,20 @@ Definition push_new_sink_events (P : sprob) (i j : nat) (s : st) : st :=
                  if 0 <? pos then ev_insert (pos, d) evs else evs) (seq (lo s) (j - lo s)) (ev s) in
     {| ev := evs; lp := lp s; lo := j; os := os s; pp := pp s |}.
 
-(* the popping loop of getSlope (cpp:281-284): sum of the top events whose position is lastPosition *)
+(* the popping loop of getSlope (cpp:299-302): sum of the top events whose position is lastPosition *)
 Fixpoint pop_at (x : Z) (evs : list event) : Z * list event :=
   match evs with
   | (p, d) :: r => if p =? x then let '(sl, r') := pop_at x r in (d + sl, r') else (0, evs)
   | [] => (0, [])
   end.
 
-(* getSlope(pop) (cpp:279-289) *)
+(* getSlope(pop) (cpp:297-307) *)
 Definition get_slope (pop : bool) (s : st) : Z * st :=
   let '(slope, evs) := pop_at (lp s) (ev s) in
   let evs' := if negb pop && negb (slope =? 0) then ev_insert (lp s, slope) evs else evs in
   (slope, {| ev := evs'; lp := lp s; lo := lo s; os := os s; pp := pp s |}).
 
-(* pushToLastSink (cpp:230-242) *)
+(* pushToLastSink (cpp:248-260) *)
 Definition push_to_last_sink (P : sprob) (i : nat) (s : st) : st :=
   let j := lo s in
   let minPos := Z.max (Dx P (j + 1) - Sx P (i + 1)) 0 in
@@ -206,11 +206,11 @@ Definition push_to_last_sink (P : sprob) (i : nat) (s : st) : st :=
   let evs' := if 0 <? lp' then ev_insert (lp', slope) (ev s1) else ev s1 in
   {| ev := evs'; lp := lp'; lo := lo s1; os := os s1; pp := pp s1 |}.
 
-(* pushToNewSink (cpp:244-246) *)
+(* pushToNewSink (cpp:262-264) *)
 Definition push_to_new_sink (P : sprob) (i : nat) (s : st) : st :=
   push_new_sink_events P i (lo s + 1) s.
 
-(* pushOnce (cpp:213-228) *)
+(* pushOnce (cpp:231-246) *)
 Definition push_once (P : sprob) (i : nat) (s : st) : st :=
   let j := lo s in
   if Nat.eqb j (n_snk P - 1) then push_to_last_sink P i s
@@ -221,7 +221,7 @@ Definition push_once (P : sprob) (i : nat) (s : st) : st :=
     let reducedCostLeft := slope + cost P i j in
     if reducedCostRight <=? reducedCostLeft then push_to_new_sink P i s1 else push_to_last_sink P i s1.
 
-(* `while (lastPosition > D[lastOccupiedSink + 1] - S[i + 1]) pushOnce(i);` (cpp:207-209) *)
+(* `while (lastPosition > D[lastOccupiedSink + 1] - S[i + 1]) pushOnce(i);` (cpp:225-227) *)
 Fixpoint push_loop (P : sprob) (i : nat) (fuel : nat) (s : st) : option st :=
   if Dx P (lo s + 1) - Sx P (i + 1) <? lp s then
     match fuel with O => None | S f => push_loop P i f (push_once P i s) end
@@ -230,7 +230,7 @@ Fixpoint push_loop (P : sprob) (i : nat) (fuel : nat) (s : st) : option st :=
 (* the fuel handed to the loop of push(i): |events| + 2*nbSinks + 1  (sufficiency: Transp1dProofs.run_terminates) *)
 Definition loop_fuel (P : sprob) (s : st) : nat := (length (ev s) + 2 * n_snk P + 1)%nat.
 
-(* push (cpp:202-211) *)
+(* push (cpp:220-229) *)
 Definition push (P : sprob) (i : nat) (s : st) : option st :=
   let s1 := {| ev := ev s; lp := lp s; lo := lo s; os := upd_opt P i (n_snk P) (os s); pp := pp s |} in
   let s2 := push_new_source_events P i s1 in
@@ -241,7 +241,7 @@ Definition push (P : sprob) (i : nat) (s : st) : option st :=
   | Some s5 => Some {| ev := ev s5; lp := lp s5; lo := lo s5; os := os s5; pp := pp s5 ++ [lp s5] |}
   end.
 
-(* flushPositions (cpp:166-173): from the right, p[i] = min(p[i], running maximum position) *)
+(* flushPositions (cpp:184-191): from the right, p[i] = min(p[i], running maximum position) *)
 Fixpoint flush (mx : Z) (p : list Z) : list Z :=
   match p with
   | [] => []
@@ -257,14 +257,14 @@ Fixpoint push_all (P : sprob) (is_ : list nat) (s : st) : option st :=
   | i :: r => match push P i s with None => None | Some s' => push_all P r s' end
   end.
 
-(* run (cpp:183-200): the positions p after flushPositions; None = the push loop ran out of fuel *)
+(* run (cpp:201-218): the positions p after flushPositions; None = the push loop ran out of fuel *)
 Definition run (P : sprob) : option (list Z) :=
   match push_all P (seq 0 (n_src P)) init_st with
   | None => None
   | Some s => Some (flush (zn (sD P) (n_snk P) - Sx P (length (pp s))) (pp s))
   end.
 
-(* computeSolution (cpp:291-313); i+j grows by one per iteration: fuel = |p| + nbSinks *)
+(* computeSolution (cpp:309-331); i+j grows by one per iteration: fuel = |p| + nbSinks *)
 Definition triple := (nat * nat * Z)%type.
 Fixpoint sweep (P : sprob) (p : list Z) (fuel : nat) (i j : nat) : list triple :=
   match fuel with
@@ -284,7 +284,7 @@ Fixpoint sweep (P : sprob) (p : list Z) (fuel : nat) (i j : nat) : list triple :
 Definition compute_solution (P : sprob) (p : list Z) : list triple :=
   sweep P p (length p + n_snk P) O O.
 
-(* computeAssignment (cpp:315-327), machine level.  State of the scan: currentSink and the part of D
+(* computeAssignment (cpp:333-345), machine level.  State of the scan: currentSink and the part of D
    that starts at D[currentSink+1]; an empty remainder is a read past the end of D. *)
 Fixpoint scan_D (Dt : list Z) (cs : nat) (pos : Z) : option (nat * list Z) :=
   match Dt with
@@ -315,7 +315,7 @@ Fixpoint assign_loop (P : sprob) (p : list Z) (is_ : list nat) (ret : list nat) 
 Definition compute_assignment (P : sprob) (p : list Z) : option (list nat) :=
   assign_loop P p (seq 0 (length p)) (repeat O (length p)) O (tl (sD P)).
 
-(* convertSolutionBack (cpp:80-88) *)
+(* convertSolutionBack (cpp:79-87) *)
 Definition convert_solution_back (so : sorter) (sol : list triple) : list triple :=
   map (fun '(i, j, a) => (nn (srcOrder so) i, nn (snkOrder so) j, a)) sol.
 
@@ -333,15 +333,15 @@ Fixpoint cab_loop (so : sorter) (a : list nat) (is_ : list nat) (ret : list nat)
     | _, _ => None
     end
   end.
-(* repaired code (cpp:90-97 of the fixed tree): `ret = idleSink` *)
+(* repaired code (cpp:89-97 of the repaired tree): `ret = idleSink` *)
 Definition convert_assignment_back (so : sorter) (a : list nat) : option (list nat) :=
   cab_loop so a (seq 0 (length a)) (idleSink so).
-(* UNCHANGED code (cpp:70-79 of /repo at ccd26f6): `ret.resize(a.size())` -- kept for the F11 witness *)
+(* UNCHANGED code (cpp:71-79 of /repo at ccd26f6): `ret.resize(a.size())` -- kept for the F11 witness *)
 Definition convert_assignment_back_unfixed (so : sorter) (a : list nat) : option (list nat) :=
   cab_loop so a (seq 0 (length a)) (repeat O (length a)).
 
 (* ------------------------------------------------------------------ Transportation1d::solve / assign *)
-(* solve (cpp:93-103).  solver.check(), checkSolutionValid and checkSolutionOptimal only throw; they are
+(* solve (cpp:111-121).  solver.check(), checkSolutionValid and checkSolutionOptimal only throw; they are
    not modelled: a throw of the C++ shows as a difference in the correspondence run. *)
 Definition solve (pb : prob) : res (list triple) :=
   match check pb with
@@ -370,6 +370,6 @@ Definition assign_with (cab : sorter -> list nat -> option (list nat)) (pb : pro
       end
     end
   end.
-(* assign (cpp:105-112) *)
+(* assign (cpp:123-130) *)
 Definition assign : prob -> res (list nat) := assign_with convert_assignment_back.
 Definition assign_unfixed : prob -> res (list nat) := assign_with convert_assignment_back_unfixed.
